@@ -7,6 +7,7 @@ import c02
 CONFIGS = ['prod']
 EXPLANATION = (
     'N8: selections are owned by the actor - no field of NodeSelectorHandle is a collection of node addresses or a (shared) cell holding one. '
+    'N9: the address the selector is started with as its own node and the address the local member is recorded under are read from the same field of the connection configuration (dataflow through ClusterInfo). '
     'N7: the membership record is a plain carrier — ClusterMember::new stores id, address and data centre exactly as given (the selector filters the local node by comparing addresses, the consumers key their peers by id). '
     'SEM (abstract interpretation of the MIR by the checker\'s own interpreter, no code of the repository runs): DCAwareSelector::select_nodes, with select_n_nodes and '
     'NodeCycler, is interpreted on a bounded family of data-centre layouts (quick: 21 layouts up to 4 data centres, every rotating-cursor position = whatever selections were '
@@ -396,6 +397,7 @@ def check(ctx):
     import carrier_abs
     carrier_abs.check_member_constructor(ctx, facts, 'C15.N7')
     check_N8(ctx, facts)
+    check_N9(ctx, facts)
     check_actor(ctx, facts)
     # SEM: select_nodes (with select_n_nodes and NodeCycler) interpreted on a family of concrete layouts, for every cursor position,
     # every level and every random draw (selector_abs); subsumes N3-N6, which are evaluated only when a construct is not modelled
@@ -404,6 +406,97 @@ def check(ctx):
         check_N3(ctx, facts)
         check_N6(ctx, facts)
         check_N4(ctx, facts)
+
+
+def _field_origins(facts, body, local, depth=0):
+    """the struct fields (adt, field name) of workspace types a local's value is read from, following copies / moves backwards"""
+    fl = Flow(body, all_calls=False)
+    back = fl.backward([local])
+    out = set()
+    for _b, _j, s_ in body.assigns():
+        if s_['lhs']['l'] not in back or s_['lhs']['p']:
+            continue
+        for pl in rv_places(s_['rv']):
+            parent = body.local_ty(pl['l'])
+            last = None
+            for e in pl['p']:
+                if isinstance(e, dict) and 'f' in e:
+                    pa = facts.adts.get(strip_generics(parent.lstrip('&').replace('mut ', '').strip())) if parent else None
+                    if pa is not None and pa['kind'] == 'struct' and strip_generics(pa['def']).startswith('datacake') and e['f'] < len(pa['variants'][0]['fields']):
+                        last = (strip_generics(pa['def']), pa['variants'][0]['fields'][e['f']]['name'])
+                    else:
+                        last = None
+                    parent = e.get('ty')
+            if last is not None and str(parent).endswith('SocketAddr'):
+                out.add(last)
+    return out
+
+
+def check_N9(ctx, facts, rule='C15.N9'):
+    """N9: the selector is told WHICH ADDRESS IS ITS OWN NODE, and leaves that address out of every selection; the membership layout lists every
+    member — the local one included — under the address of its membership record.  Both must be the same configured address: the one given to
+    the selector as the local node and the one the local member's record is built with are read from the same field of the connection
+    configuration (value routing between two same-typed sibling fields; round 8, C15h: the selector was started with the listen address, so
+    with listen != public address a node selects itself and counts itself as a replica)."""
+    N = 'datacake_node'
+    sel, mem = [], []
+    for b in facts.bodies.values():
+        if b.crate != N or b.d['promoted']:
+            continue
+        for _blk, t in b.calls():
+            n_ = cname(t) or ''
+            if n_.endswith('::start_node_selector') and t.get('args'):
+                l = op_local(t['args'][0])
+                if l is not None:
+                    sel.append((b, t, _field_origins(facts, b, l)))
+            if n_.endswith('::ClusterMember::new') and len(t.get('args') or []) >= 2:
+                for a in t['args']:
+                    l = op_local(a)
+                    if l is not None and str(b.local_ty(l)).endswith('SocketAddr'):
+                        o_ = _field_origins(facts, b, l)
+                        if o_:
+                            mem.append((b, t, o_))
+    if not sel or not mem:
+        ctx.notes.append('%s: the selector start-up or the local member record is not built from a configuration field in a way the rule reads: not decided' % rule)
+        return
+
+    def through(origins):
+        """a field of an intermediate workspace struct (ClusterInfo) is followed to what it is built from"""
+        out = set()
+        for adt, fld in origins:
+            hit = False
+            for b in facts.bodies.values():
+                if b.crate != N or b.d['promoted']:
+                    continue
+                for _b, _j, s_ in b.assigns():
+                    rv = s_['rv']
+                    if rv['k'] == 'aggregate' and rv.get('agg') == 'adt' and strip_generics(rv['adt']) == adt and fld in (rv.get('fields') or []):
+                        o = rv['ops'][rv['fields'].index(fld)]
+                        l = op_local(o)
+                        if l is not None:
+                            src = _field_origins(facts, b, l)
+                            if src:
+                                out |= src
+                                hit = True
+            if not hit:
+                out.add((adt, fld))
+        return out
+    s_or = set()
+    for _b, _t, o in sel:
+        s_or |= through(o)
+    m_or = set()
+    for _b, _t, o in mem:
+        m_or |= through(o)
+    if not s_or or not m_or:
+        ctx.notes.append('%s: origins not resolved: not decided' % rule)
+        return
+    good = s_or == m_or
+    b0, t0, _o = sel[0]
+    ctx.ob(rule, 'self-address|selector-vs-member-record', good, site(b0, t0['cs']),
+           'the address the selector leaves out as "this node" and the address of the local member\'s record are both read from %s' % sorted(s_or) if good else
+           'the selector is told its own node is at %s, the local member is recorded (and listed in the membership layout the selector receives) under %s: when the two '
+           'configured addresses differ the selector does not recognise its own entry — it hands out the local node as a replica, so a level is "met" by fewer distinct '
+           'peers than it promises and too-few-nodes is not reported' % (sorted(s_or), sorted(m_or)))
 
 
 def check_N8(ctx, facts, rule='C15.N8'):
